@@ -73,6 +73,7 @@ def run(ctx):
     P = semcheck.gen_programs(ctx.seed * 7919 + 21, ctx.pick(120, 1500), "strat", p_edge=True)
     P += semcheck.gen_programs(ctx.seed * 7919 + 22, ctx.pick(40, 500), "negloop")
     P += common.family_small(ctx.pick(80, 1500), ctx.seed + 2000)
+    P += common.multirec_family(ctx.pick(60, 800), ctx.seed + 2100)
     P += common.cyclic_family(ctx.pick(150, 2500), ctx.seed + 2050, evidence=0.2, undefined=0.3)
 
     def variants(p):
